@@ -1,5 +1,6 @@
 import NriModel.Lemmas.GenerateLift
 import NriModel.Lemmas.GenerateSpec
+import NriModel.Lemmas.GenerateRootfs
 /-!
 Property C13 — applying a container adjustment to an OCI spec changes exactly what it names,
 deterministically.  Theorems about `Nri.Generate.adjust` (the model of `Generator.Adjust`,
@@ -609,6 +610,36 @@ theorem C13_rootfs_propagation_untouched (hext : ext.CDIFramed) (h : adjust ext 
   Mounts.apply_rootfs (adjust_ok hext h).mounts hq
 
 example : ∀ o ∈ [str "ro", str "rprivate"], o ≠ str "rshared" ∧ o ≠ str "rslave" := by decide
+
+/-- The VALUE of `Linux.RootfsPropagation` after any successful application, for every mount list,
+    every original value and every host: it is `Check.expectedRootfs` — `rshared` when some applied
+    mount (effectively) asks for `rshared`, raised to `rslave` when some asks for `rslave` and the
+    original is neither `rshared` nor `rslave`, the original otherwise.  In particular it is never
+    lowered and does not depend on the order in which the asking entries come.  This is the
+    predicate the check evaluates on the implementation's own result. -/
+theorem C13_rootfs_propagation_value (hext : ext.CDIFramed) (h : adjust ext s a = .ok s') :
+    s'.rootfsPropagation = Check.expectedRootfs s.rootfsPropagation a.mounts :=
+  Mounts.apply_rootfs_eq (adjust_ok hext h).mounts
+
+/-- … never lowered: an original `rshared` stays whatever the mounts ask for. -/
+theorem C13_rootfs_propagation_never_lowered (hext : ext.CDIFramed) (h : adjust ext s a = .ok s')
+    (hs : s.rootfsPropagation = str "rshared") : s'.rootfsPropagation = str "rshared" := by
+  rw [C13_rootfs_propagation_value hext h, hs]
+  unfold Check.expectedRootfs Check.raiseRootfs
+  split
+  · rfl
+  · simp
+
+-- non-vacuity: the requests of a concrete list (sticky query: the third entry inherits `rslave`)
+example : Check.propRequests []
+    [ { destination := str "/p", type := str "bind", source := str "/s", options := [str "rprivate"] },
+      { destination := str "-/q", type := [], source := [], options := [] },
+      { destination := str "/q", type := str "bind", source := str "/s", options := [str "rslave", str "ro"] },
+      { destination := str "/r", type := str "bind", source := str "/s", options := [str "ro"] } ]
+    = [str "rprivate", str "rslave", str "rslave"] := by decide
+example : Check.raiseRootfs (str "rprivate") [str "rprivate", str "rslave"] = str "rslave" := by decide
+example : Check.raiseRootfs (str "rshared") [str "rslave"] = str "rshared" := by decide
+example : Check.raiseRootfs (str "rslave") [str "rslave", str "rshared"] = str "rshared" := by decide
 
 /-! ## The guards hold again of the result (plugin chains, repeated application) -/
 
